@@ -8,7 +8,7 @@ use hashbrown::hash_map::DefaultHashBuilder;
 use hashbrown::raw::RawTable;
 
 #[cfg(json_syntax_verif)]
-mod verif {
+pub(crate) mod verif {
 	include!(concat!(env!("JSON_SYNTAX_VERIF_DIR"), "/incrate/index_map.rs"));
 }
 
